@@ -143,16 +143,18 @@ fn stress(seed: u64, j: usize, readers: usize, millis: u64, mode: u64) -> Outcom
     trippy_core::verif::set_failpoint(Some(failpoint));
     let rounds: Arc<Mutex<Vec<Rnd>>> = Arc::new(Mutex::new(Vec::new()));
     let stop = Arc::new(AtomicBool::new(false));
+    let done = Arc::new(AtomicBool::new(false));
+    let run_result: Arc<Mutex<Option<Result<(), String>>>> = Arc::new(Mutex::new(None));
     let snaps: Arc<Mutex<Vec<Snap>>> = Arc::new(Mutex::new(Vec::new()));
     let clears: Arc<Mutex<Vec<(u64, u64)>>> = Arc::new(Mutex::new(Vec::new()));
     let t_start = clock::real_now_ns();
     let panics: Arc<Mutex<Vec<crate::framework::Panic>>> = Arc::new(Mutex::new(Vec::new()));
     std::thread::scope(|sc| {
         // the tracer: virtual time, runs until the world is told to stop (a fatal fault)
-        let (w2, tr2, rounds2, stop2) = (world.clone(), tracer.clone(), rounds.clone(), stop.clone());
+        let (w2, tr2, rounds2, stop2, done2, result2) = (world.clone(), tracer.clone(), rounds.clone(), stop.clone(), done.clone(), run_result.clone());
         sc.spawn(move || {
             let guard = w2.attach(0);
-            let _ = tr2.run_with(|round| {
+            let res = tr2.run_with(|round| {
                 let c = stamp();
                 rounds2.lock().unwrap().push(Rnd { probes: round.probes.to_vec(), largest: round.largest_ttl.0, reason: round.reason, c });
                 if stop2.load(Ordering::Relaxed) {
@@ -164,12 +166,16 @@ fn stress(seed: u64, j: usize, readers: usize, millis: u64, mode: u64) -> Outcom
                     }
                 }
             });
+            *result2.lock().unwrap() = Some(res.map_err(|e| e.to_string()));
+            done2.store(true, Ordering::SeqCst);
             drop(guard);
         });
         for _ in 0..readers {
-            let (tr, snaps2, stop2, panics2) = (tracer.clone(), snaps.clone(), stop.clone(), panics.clone());
+            let (tr, snaps2, stop2, panics2) = (tracer.clone(), snaps.clone(), done.clone(), panics.clone());
             sc.spawn(move || {
                 let mut local = Vec::new();
+                // (readers keep going until the tracer has ended, so that they also contend with
+                // the hand-over of the final error)
                 while !stop2.load(Ordering::Relaxed) {
                     let s0 = stamp();
                     // (a snapshot torn by a race may make clone or the getters panic)
@@ -204,6 +210,9 @@ fn stress(seed: u64, j: usize, readers: usize, millis: u64, mode: u64) -> Outcom
             let mut r = Prng::new(cseed);
             while !stop2.load(Ordering::Relaxed) {
                 std::thread::sleep(std::time::Duration::from_micros(r.range(200, 20_000)));
+                if stop2.load(Ordering::Relaxed) {
+                    break;
+                }
                 let k0 = stamp();
                 tr.clear();
                 let k1 = stamp();
@@ -214,6 +223,18 @@ fn stress(seed: u64, j: usize, readers: usize, millis: u64, mode: u64) -> Outcom
         stop.store(true, Ordering::Relaxed);
     });
     trippy_core::verif::set_failpoint(None);
+    // the run was ended by a fatal socket error: whatever the readers were doing at that moment,
+    // the error must be visible in every later snapshot
+    // (a clear() that returned after the last round was published may have wiped the error
+    // legitimately: such a run is not judged)
+    let last_pub = rounds.lock().unwrap().last().map_or(0, |r| r.c);
+    let cleared_late = clears.lock().unwrap().iter().any(|(_, k1)| *k1 > last_pub);
+    if let (Some(Err(e)), false) = (run_result.lock().unwrap().clone(), cleared_late) {
+        o.hit("fatal_error_visible_after_concurrent_run");
+        if tracer.snapshot().error().is_none() {
+            o.violate("fatal_error_visible_after_concurrent_run", site.clone(), format!("the run ended with {e:?} while {readers} reader thread(s) were taking snapshots, but a snapshot taken afterwards carries no error"), replay.clone());
+        }
+    }
     for p in panics.lock().unwrap().iter() {
         o.violate("snapshot_is_whole_consecutive_rounds", format!("{site}|panic|{}", p.site()), format!("taking or reading a snapshot panicked at {}:{}: {}", p.file, p.line, p.message), replay.clone());
     }
